@@ -183,7 +183,7 @@ pub fn def() -> PropDef {
         level: "fault_enumeration",
         rule: "workload = synthesized image (tree of up to 13 entries incl. a 3.5-14 KB stream /big, mini streams) + read-only script of 5-25 calls (open, walk, listings, entry, exists, whole-stream reads, handle read/read_exact/fill_buf+consume/seek/read_to_end with buffer sizes 1024/4096/default); the fault-free run counts N underlying read+seek calls; then one run per k in [0,N) with call k failing (kinds Other/UnexpectedEof/TimedOut in rotation), plus all pairs for N<=60 or 120 sampled nearby pairs; after every Err the same call is retried up to 3 times. Oracle per call: Err only if a fault fired during that call, otherwise exactly the fault-free value; bytes delivered by any read must equal the true content at the position the handle reports. evaluations = number of executions; a non-trivial item = an execution in which a fault fired inside a stream read, that call returned Err and a later read on the same handle returned bytes; distinct = distinct (case, fault positions).",
         assumptions: &["single faults are enumerated exhaustively per workload; workloads and pairs are sampled", "a failed read may leave the position anywhere: only data at the position the handle itself reports is judged"],
-        quick_cases: 40,
+        quick_cases: 25,
         thorough_cases: 1500,
         worker,
         solo,
